@@ -43,4 +43,22 @@ func (p *RetryPolicy) Wrap(handler HandlerFunc) (wrapped HandlerFunc)
     ghost at select-case[1]: sawCancel := true
     ghost at select-case[1]: cancelAt := hCalls
   end
+
+// ---- circuit breaker wrapper (C08 / C10): one outcome recorded per permitted call, none otherwise ----
+ghost var recorded int
+ghost var gPermitted bool
+
+func (w circuitBreakerWrapper) Wrap(handler HandlerFunc) (wrapped HandlerFunc)
+  closure[1] (ctx context.Context) (err error)
+    requires w.CircuitBreaker != nil && circuitbreaker.policyOK(w.CircuitBreaker.policy) && handler != nil
+    flag frame=unchecked
+    modifies hCalls, hErrNil, hLast, recorded, gPermitted
+    ensures short-circuit-skips-the-handler: !gPermitted ==> err == ErrShortCircuited && hCalls == old(hCalls) && recorded == old(recorded)
+    ensures permitted-call-runs-once-and-records-once: gPermitted ==> hCalls == old(hCalls) + 1 && recorded == old(recorded) + 1 && err == hLast
+    ghost at call[1] AcquirePermission: gPermitted := ok
+    ghost at call RecordResult: recorded := recorded + 1
+    closure[1] ()
+      ghost at call RecordResult: recorded := recorded + 1
+    end
+  end
 @*/
